@@ -409,3 +409,18 @@ Proof.
   { induction l0 as [|i l0 IH]; intros st; cbn [fold_left]; [apply incl_refl|]. eapply incl_tran; [apply tri_step_cells | apply IH]. }
   exact (H l (m, [])).
 Qed.
+
+(* ------------------------------------------------------------------ the state create_lattice starts from registers every vertex on the cells it
+   occurs in: the "registered" premise of the contraction theorem holds there by construction *)
+Lemma aget_map_key {A} (d : A) (f : Z -> A) v vs : In v vs -> aget d v (map (fun v => (v, f v)) vs) = f v.
+Proof.
+  intros Hin. unfold aget. induction vs as [|w vs IH]; [destruct Hin|]. cbn [map find fst].
+  destruct (Z.eqb_spec w v) as [-> | Hne]; [reflexivity|]. destruct Hin as [E | Hin]; [congruence | apply IH, Hin].
+Qed.
+Theorem mesh_of_lattice_registered st v : In v (vids (mesh_of_lattice st)) -> registered v (mesh_of_lattice st).
+Proof.
+  intros Hv c Hin. unfold mesh_of_lattice in *. cbn [vids ownC mcells] in *. unfold cyc in Hin. cbn [mcells] in Hin.
+  rewrite (aget_map_key (@nil Z) _ v _ Hv).
+  destruct (aget_in (@nil Z) c (enumZ (Skeleton.sk_cells st))) as [[cy [Hc E]] | E]; rewrite E in Hin; [|destruct Hin].
+  apply in_map_iff. exists (c, cy). split; [reflexivity|]. apply filter_In. split; [exact Hc|]. cbn [snd]. apply memZ_iff, Hin.
+Qed.
